@@ -613,10 +613,73 @@ def check(run):
                           gen_problem, clause='generated_model', concrete=False)
         else:
             run.notes.append("generated model: " + gen_problem[:500])
+    check_funcblock_current_inputs(run)
+
+
+def check_funcblock_current_inputs(run, only=None):
+    """'FuncBlock ... output equals its function applied to the CURRENT outputs of the connected blocks' -
+    for a function that tells apart values which compare equal (1 / True / 1.0, 0 / False) and for
+    input values that cannot be hashed (a list): the function is called with exactly the current
+    objects every time the inputs change."""
+    import asyncio
+    from . import drive, vloop
+
+    def describe(*args, **kw):
+        flat = list(args[0]) if (len(args) == 1 and isinstance(args[0], tuple)) else list(args)
+        return '/'.join(f"{type(x).__name__}:{x!r}" for x in flat + [kw[k] for k in sorted(kw)])
+    seq = [1, 0, True, 2, 1.0, False, [1], 1, [1], True]      # (consecutive values differ: equal ones are no change)
+    for name in ('unpack', 'nounpack', 'named'):
+        if only is not None and name != only:
+            continue
+        obs = dict(outputs=[], error=None, harness=None)
+
+        async def main(loop, name=name, obs=obs):
+            edzed.reset_circuit()
+            circuit = edzed.get_circuit()
+            a = edzed.Input('a', initdef=seq[0])
+            b = edzed.Input('b', initdef=0)
+            if name == 'named':
+                f = edzed.FuncBlock('f', func=describe).connect(x=a, y=b)
+            else:
+                f = edzed.FuncBlock('f', func=describe, unpack=(name == 'unpack')).connect(a, b)
+            task = asyncio.create_task(circuit.run_forever())
+            await circuit.wait_init()
+            obs['outputs'].append(f.output)
+            for v in seq[1:]:
+                a.event('put', value=v)
+                await drive.settle()
+                if circuit.error is not None:
+                    obs['error'] = repr(circuit.error)[:200]
+                    break
+                obs['outputs'].append(f.output)
+            try:
+                await circuit.shutdown()
+            except BaseException:                # noqa
+                pass
+        try:
+            vloop.run_virtual(main, wall_limit_s=10.0)
+        except BaseException as err:             # noqa
+            obs['harness'] = repr(err)[:200]
+        finally:
+            edzed.reset_circuit()
+        want = [describe(v, 0) for v in seq]
+        run.add_case(dict(funcblock_current_inputs=name), True)
+        run.count('funcblock_current_inputs')
+        ok = obs['harness'] is None and obs['error'] is None and obs['outputs'] == want
+        run.add_obligation(ok)
+        if not ok:
+            run.violation('monitor', dict(case=dict(funcblock_current_inputs=name), observed=obs),
+                          f"FuncBlock ({name}) with a function describing the type and value of its inputs; input a "
+                          f"takes the values {seq}: outputs at the idle points {obs['outputs']} (expected {want}), "
+                          f"error {obs['error']}; harness: {obs['harness']}",
+                          clause='funcblock_current_inputs:' + name, concrete=True)
 
 
 def replay(run, path):
     payload, case = common.load_replay_case(path)
+    if isinstance(case, dict) and 'funcblock_current_inputs' in case:
+        return common.directed_replay(run, path,
+                                      lambda: check_funcblock_current_inputs(run, case['funcblock_current_inputs']))
     if payload.get('clause') == 'unchanged_output_replaced':
         def again():
             o = SimSpec().run_impl([case])[0]
